@@ -74,8 +74,38 @@ def main() -> int:
         tr.parse_trace_file = delayed  # patched before the pool forks: the harness owns the completion order
     files = {int(k): v for k, v in cfg["files"]}  # insertion order as given
     t = Trace(files, cfg["dir"])
-    if cfg.get("order"):
+    stable = {"ids": True, "decoding": True, "detail": ""}
+    if cfg.get("batches"):
+        # incremental load on one Trace object: ranks are added batch by batch (parse_single_rank / parse_multiple_ranks);
+        # ids assigned earlier must stay, and rows loaded earlier must keep decoding to their strings
+        snap_ids = {}
+        snap_rows = {}
+        for batch in cfg["batches"]:
+            rs = [int(r) for r in batch["ranks"]]
+            if batch.get("single") and len(rs) == 1:
+                t.parse_single_rank(rs[0])
+            else:
+                t.parse_multiple_ranks(rs, use_multiprocessing=cfg["mp"] and len(rs) > 1)
+            idmap = dict(t.symbol_table.get_sym_id_map())
+            tab_now = list(t.symbol_table.get_sym_table())
+            for sname, i in snap_ids.items():
+                if idmap.get(sname) != i and stable["ids"]:
+                    stable["ids"] = False
+                    stable["detail"] = f"id of {sname!r} changed from {i} to {idmap.get(sname)} after adding ranks {rs}"
+            for rank, rows in snap_rows.items():
+                try:
+                    now = [(tab_now[int(a)], tab_now[int(b)]) for a, b in zip(t.traces[rank]["name"], t.traces[rank]["cat"])]
+                except Exception as e:  # noqa: BLE001
+                    now = type(e).__name__
+                if now != rows and stable["decoding"]:
+                    stable["decoding"] = False
+                    stable["detail"] = f"rows of rank {rank} decode differently after adding ranks {rs}"
+            snap_ids.update(idmap)
+            for rank in rs:
+                snap_rows[rank] = [(tab_now[int(a)], tab_now[int(b)]) for a, b in zip(t.traces[rank]["name"], t.traces[rank]["cat"])]
+    elif cfg.get("order"):
         t.parse_multiple_ranks([int(r) for r in cfg["order"]], use_multiprocessing=cfg["mp"])
+    if cfg.get("batches") or cfg.get("order"):
         t.is_parsed = True
         t.align_and_filter_trace(False)
         for rank in list(t.traces):
@@ -89,7 +119,7 @@ def main() -> int:
     tab = t.symbol_table.get_sym_table()
     out = {"numbering": hashlib.sha1(json.dumps(sorted(t.symbol_table.get_sym_id_map().items())).encode()).hexdigest()[:12],
            "bijection": all(tab[i] == s for s, i in t.symbol_table.get_sym_id_map().items()) and len(set(tab)) == len(tab),
-           "ranks": {}, "analyses": {}}
+           "stable": stable, "ranks": {}, "analyses": {}}
     dec = lambda i: tab[i]  # noqa: E731
     for rank in sorted(t.traces):
         df = t.traces[rank]
